@@ -566,6 +566,20 @@ func (w *World) speculate() {
 			st.Sub = append(st.Sub, sub.Steps[0])
 			if res.OK {
 				okN++
+				if p, ok := msg.(*baskettypes.MsgPut); ok {
+					for _, c := range p.Credits {
+						for _, d := range w.brNew.batches {
+							if c.BatchDenom == d {
+								w.Flags["discarded-put-of-discarded-batch"] = true
+							}
+						}
+					}
+					for _, d := range w.brNew.baskets {
+						if p.BasketDenom == d {
+							w.Flags["discarded-put-into-discarded-basket"] = true
+						}
+					}
+				}
 				w.S = w.R.Take(w.C)
 				w.brNew = newIDs(saved, w.S)
 				if w.chance("spec.again", 35) {
@@ -595,6 +609,8 @@ var specTemplates = [][]string{
 	{"createClass", "createProject", "createBatch", "basketCreate", "put"},
 	{"basketCreate", "put", "take"},
 	{"createBatch", "put", "sell"},
+	{"createBatch", "put", "put", "take"},
+	{"createBatch", "put", "take", "put"},
 	{"createBatch", "basketCreate", "put", "take"},
 	{"createProject", "createBatch", "send", "retire"},
 	{"defineResolver", "registerResolver", "anchor", "attest"},
@@ -684,6 +700,15 @@ func (w *World) notePhantoms(saved, branch *snap.Snap) {
 		}
 	}
 	n := newIDs(saved, branch)
+	for _, d := range n.batches {
+		if b := branch.BatchByDenom(d); b != nil && len(w.phBatchInfo) < 8 && b.StartDate != nil && b.EndDate != nil {
+			for _, p := range branch.Projects {
+				if p.Key == b.ProjectKey {
+					w.phBatchInfo = append(w.phBatchInfo, phBatch{Denom: d, ProjectID: p.Id, Start: b.StartDate.AsTime(), End: b.EndDate.AsTime()})
+				}
+			}
+		}
+	}
 	add(&w.phCreditTypes, n.creditTypes)
 	add(&w.phClasses, n.classes)
 	add(&w.phProjects, n.projects)
